@@ -20,7 +20,7 @@ E == Ev[l]
 TraceInit == /\ tid \in 1..Len(Traces) /\ l = 1
              /\ target = T.init.target /\ prevRej = T.init.prevRej /\ fol = T.init.fol
              /\ pc = "idle" /\ k = -1 /\ written = {} /\ reads = {} /\ oreads = {}
-             /\ rej = FALSE /\ src = <<"none">> /\ ktarget = 0 /\ calls = 0
+             /\ rej = FALSE /\ src = <<"none">> /\ ktarget = 0 /\ calls = 0 /\ floor = FALSE
 
 Is(n) == l <= Len(Ev) /\ E.ev = n
 Step == l' = l + 1 /\ UNCHANGED tid
@@ -28,6 +28,7 @@ Step == l' = l + 1 /\ UNCHANGED tid
 SrcName(s) == CASE s[1] = "stab" -> "stab"
                 [] s[1] = "opt" -> "opt" \o ToString(s[2])
                 [] s[1] = "min" -> "min" \o ToString(s[2])
+                [] s[1] = "min2" -> "min2_" \o ToString(s[2]) \o "_" \o ToString(s[3])
                 [] s[1] = "scaled" -> "scaled" \o ToString(s[2]) \o "_" \o ToString(s[3])
                 [] OTHER -> s[1]
 
@@ -36,7 +37,7 @@ TMark == /\ Is("beg") /\ E.fol /\ ~fol /\ NewOde /\ UNCHANGED <<tid, l>>
 TReset == /\ Is("reset") /\ Reset /\ Step
 TBeg == /\ Is("beg") /\ E.tprev = target /\ E.prevRej = prevRej /\ E.fol = fol
         /\ E.t0ok /\ E.t0 \in 1..SeqLen - 2
-        /\ Begin(E.t0) /\ Step
+        /\ Begin(E.t0, E.floor) /\ Step
 
 Cls(e) == IF e.nan THEN "nan" ELSE IF e.huge THEN "huge" ELSE IF e.conv THEN "conv"
           ELSE LET d == e.k - target IN
@@ -47,19 +48,21 @@ TPass == /\ Is("it") /\ E.k = k + 1 /\ E.optok
                 l8 == IF t >= 1 /\ t <= SeqLen - 1 THEN E.l8adj[t] ELSE FALSE IN
             Pass(E.ok, Cls(E), l8)
          /\ Step
-TEnd == /\ Is("end") /\ E.k = k /\ E.rej = rej
+TEnd == /\ Is("end") /\ E.k = k
         /\ LET a == IF k >= 1 THEN E.l8adj[k] ELSE FALSE
                b == IF k >= 1 THEN E.l9adj[k] ELSE FALSE
                c == IF k >= 2 THEN E.l8adj[k - 1] ELSE FALSE
                d2 == IF k > 2 /\ c THEN E.l9k2 ELSE b IN
            End(a, b, c, d2)
-        /\ target' = E.target /\ prevRej' = E.prevRej /\ fol' = E.fol
+        /\ rej' = E.rej /\ target' = E.target /\ prevRej' = E.prevRej /\ fol' = E.fol
         /\ SrcName(src') \in {E.srcs[i] : i \in 1..Len(E.srcs)}
         /\ Step
 (* a NaN error estimate ends the call with an error status: the proposal is the step that came in, the flags stay *)
 TErr == /\ Is("err") /\ pc = "idle" /\ src = <<"error">> /\ E.same /\ UNCHANGED vars /\ Step
+(* no extrapolated result at the minimal step size: error status, the flags stay *)
+TErrFloor == /\ Is("err") /\ pc = "end" /\ E.same /\ End(FALSE, FALSE, FALSE, FALSE) /\ src' = <<"error">> /\ Step
 
-TraceNext == TMark \/ TReset \/ TBeg \/ TPass \/ TEnd \/ TErr
+TraceNext == TMark \/ TReset \/ TBeg \/ TPass \/ TEnd \/ TErr \/ TErrFloor
 TraceSpec == TraceInit /\ [][TraceNext]_tvars
 Report == /\ (l = Len(Ev) + 1 => PrintT(<<"ACC", tid>>))
           /\ (Verbose => PrintT(<<"AT", tid, l>>))
